@@ -7,4 +7,5 @@ CONSTANTS Kinds = {}
   EOF_IS_BROKEN = FALSE
   TRIM_TWICE = TRUE
   USED_HOISTED = FALSE
+  SHARED_SEEN = FALSE
 CHECK_DEADLOCK FALSE
